@@ -23,6 +23,13 @@ Theorem one_dataset_per_key : forall h c t d i j,
 Proof. exact one_dataset_per_key_p. Qed.
 Print Assumptions one_dataset_per_key.
 
+(* the abstract map (collection, dataset type, data id) -> dataset read off by `find` is well defined: it returns
+   i exactly when the row is present (refinement of the row list to the abstract specification's map) *)
+Theorem abs_map_well_defined : forall h c t d i,
+  find (run h) c t d = Some i <-> In (Row c t d i) (tags (run h)).
+Proof. exact find_spec_p. Qed.
+Print Assumptions abs_map_well_defined.
+
 (* every failing operation returns the same state *)
 Theorem refused_changes_nothing : forall s o s' e, step s o = (s', Err e) -> s' = s.
 Proof. exact refused_changes_nothing_p. Qed.
@@ -40,6 +47,18 @@ Theorem one_run_for_life : forall h h' i,
   run_of (run (h ++ h')) i = run_of (run h) i.
 Proof. exact one_run_for_life_p. Qed.
 Print Assumptions one_run_for_life.
+
+(* RUN membership is exactly run_of: a RUN collection holds precisely the datasets whose run it is *)
+Theorem run_membership : forall h c i, coll_type (run h) c = Some RUN ->
+  ((exists t d, In (Row c t d i) (tags (run h))) <-> run_of (run h) i = Some c).
+Proof. exact run_membership_p. Qed.
+Print Assumptions run_membership.
+
+(* every tag row refers to a live dataset and an existing collection (no rows survive a removal) *)
+Theorem tags_refer_to_live : forall h r, In r (tags (run h)) ->
+  alive (run h) (r_id r) = true /\ coll_type (run h) (r_coll r) <> None.
+Proof. exact tags_refer_to_live_p. Qed.
+Print Assumptions tags_refer_to_live.
 
 (* TAGGED contents change only at associate / disassociate / remove steps *)
 Theorem tagged_changes_only_by : forall s o c t, coll_type s c = Some TAGGED -> touches_tagged o = false ->
@@ -95,5 +114,7 @@ Example ex_tagged : coll_type (run ex_h) 1 = Some TAGGED /\ contents (run ex_h) 
 Proof. vm_compute. split; reflexivity. Qed.
 Example ex_remove_run_cascades : tags (exec (run ex_h) (RemoveCollection 0)) = [Row 2 0 0 110].
 Proof. vm_compute. reflexivity. Qed.
+Example ex_run_membership : coll_type (run ex_h) 0 = Some RUN /\ run_of (run ex_h) 101 = Some 0.
+Proof. vm_compute. split; reflexivity. Qed.
 Example ex_pruned_nonempty : query_with_summaries (run ex_h) 1 0 0 = [(1, 101); (0, 100)].
 Proof. vm_compute. reflexivity. Qed.
